@@ -16,6 +16,7 @@ func pop() Prog                       { return Prog{Op: "Pop"} }
 func define(n, v int) Prog            { return Prog{Op: "Define", K: n, V: v} }
 func setLoader(le string) Prog        { return Prog{Op: "SetLoader", LE: le} }
 func pnc() Prog                       { return Prog{Op: "Panic"} }
+func gexit() Prog                     { return Prog{Op: "Goexit"} }
 func do(b ...Prog) Prog               { return Prog{Op: "Do", Body: b} }
 func tryDo(b ...Prog) Prog            { return Prog{Op: "Do", Try: true, Body: b} }
 func doCtx(ce string, b ...Prog) Prog { return Prog{Op: "DoCtx", CE: ce, Body: b} }
@@ -77,6 +78,13 @@ func corpusRoots() [][][]Prog {
 		{{do(set(0, 1), obs(), fork(obs()), obs())}, {obs(), doCtx("new", set(0, 2), obs()), obs()}, {do(set(0, 3), obs())}, {obs()}},
 		// no context at all
 		{{set(0, 1)}, {pgo(obs())}, {fork(obs())}, {doUp(0, obs())}, {doLoader("child", obs())}, {obs(), pop()}},
+		// goroutines that end by runtime.Goexit (t.FailNow-style): forked by every route, directly and from inside
+		// nested scopes and recover points; the storage must be released and every scope on the way restored
+		{{do(set(0, 1), fork(obs(), gexit(), obs()), pgo(obs(), gexit()), tlgo(obs(), gexit()), obs())}},
+		{{do(fork(try(doCtx("fork", set(0, 2), obs(), gexit()), obs()), obs()), pgo(doLoader("child", define(0, 1), try(gexit())), obs()), obs()), obs()}},
+		{{do(fork(tryDo(obs(), gexit()), obs()), fork(do(doCtx("new", gexit()))), obs())}},
+		// a plain goroutine: the table created by DoWithContext / Do is released by their deferred functions
+		{{obs(), doCtx("new", set(0, 1), obs(), try(gexit()), obs()), obs()}, {do(doLoader("child", gexit())), obs()}, {tlgo(doCtx("new", pgo(gexit()), gexit())), gexit(), obs()}},
 	}
 }
 
@@ -124,7 +132,8 @@ func mkScope(ctor string, body []Prog) Prog {
 }
 
 // chainProgram builds the program of one chain.  variant 0: no panic; 1: the innermost body panics, nothing
-// recovers; 2: the innermost body panics, the outermost scope is inside a Try; 3: the innermost scope is inside a Try.
+// recovers; 2: the innermost body panics, the outermost scope is inside a Try; 3: the innermost scope is inside a Try;
+// 4: the innermost body calls runtime.Goexit; 5: the same with the outermost scope inside a Try (which must not see it).
 func chainProgram(chain []string, variant int) []Prog {
 	var level func(i int, inCtx bool) []Prog
 	level = func(i int, inCtx bool) []Prog {
@@ -143,13 +152,15 @@ func chainProgram(chain []string, variant int) []Prog {
 				inner = false
 			}
 			sc := mkScope(ctor, level(i+1, inner))
-			if (variant == 2 && i == 0) || (variant == 3 && i == len(chain)-1) {
+			if ((variant == 2 || variant == 5) && i == 0) || (variant == 3 && i == len(chain)-1) {
 				sc = try(sc)
 			}
 			b = append(b, sc, obs())
 			if inCtx {
 				b = append(b, set((i+1)%nKeys, 30+i), obs())
 			}
+		} else if variant >= 4 {
+			b = append(b, gexit())
 		} else if variant > 0 {
 			b = append(b, pnc())
 		}
@@ -159,7 +170,7 @@ func chainProgram(chain []string, variant int) []Prog {
 }
 
 func (r *runner) chains() {
-	maxLen, variants, nRandom := 2, []int{0, 1, 2, 3}, 1
+	maxLen, variants, nRandom := 2, []int{0, 1, 2, 3, 4, 5}, 1
 	coqStride := 9
 	if r.cfg.Thorough() {
 		maxLen, nRandom, coqStride = 3, 2, 60
@@ -170,6 +181,9 @@ func (r *runner) chains() {
 	rec = func(chain []string, l int) {
 		if len(chain) == l {
 			for _, v := range variants {
+				if l >= 3 && v == 5 {
+					continue // thorough tier, nesting 3: Goexit below a Try is covered at nesting <= 2
+				}
 				roots := [][]Prog{chainProgram(chain, v)}
 				relabel(roots)
 				n++
@@ -321,7 +335,12 @@ func randomBody(r *lib.Rng, depth int, inCtx bool) []Prog {
 		case x < 58:
 			b = append(b, setLoader([]string{"child", "child", "parent", "base"}[r.Intn(4)]))
 		case x < 62:
-			b = append(b, pnc())
+			// how a body ends abnormally: panic, or runtime.Goexit
+			if r.Chance(1, 3) {
+				b = append(b, gexit())
+			} else {
+				b = append(b, pnc())
+			}
 		case x < 68:
 			b = append(b, Prog{Op: "Do", Try: r.Chance(1, 3), Body: randomBody(r, depth-1, true)})
 		case x < 76:
